@@ -362,8 +362,7 @@ RCP<const Set> Reals::set_intersection(const RCP<const Set> &o) const
     } else if (is_a<FiniteSet>(*o) or is_a<Complexes>(*o)) {
         return (*o).set_intersection(rcp_from_this_cast<const Set>());
     } else {
-        return SymEngine::set_intersection(
-            {rcp_from_this_cast<const Set>(), o});
+        return (*o).set_intersection(rcp_from_this_cast<const Set>());
     }
 }
 
@@ -376,7 +375,7 @@ RCP<const Set> Reals::set_union(const RCP<const Set> &o) const
     } else if (is_a<FiniteSet>(*o) or is_a<Complexes>(*o)) {
         return (*o).set_union(rcp_from_this_cast<const Set>());
     } else {
-        return SymEngine::set_union({rcp_from_this_cast<const Set>(), o});
+        return (*o).set_union(rcp_from_this_cast<const Set>());
     }
 }
 
@@ -440,9 +439,10 @@ RCP<const Set> Rationals::set_intersection(const RCP<const Set> &o) const
         return o;
     } else if (is_a<FiniteSet>(*o) or is_a<Reals>(*o) or is_a<Complexes>(*o)) {
         return (*o).set_intersection(rcp_from_this_cast<const Set>());
+    } else if (is_a<Interval>(*o)) {
+        return make_set_intersection({rcp_from_this_cast<const Set>(), o});
     } else {
-        return SymEngine::set_intersection(
-            {rcp_from_this_cast<const Set>(), o});
+        return (*o).set_intersection(rcp_from_this_cast<const Set>());
     }
 }
 
@@ -453,8 +453,10 @@ RCP<const Set> Rationals::set_union(const RCP<const Set> &o) const
         return rationals();
     } else if (is_a<FiniteSet>(*o) or is_a<Reals>(*o) or is_a<Complexes>(*o)) {
         return (*o).set_union(rcp_from_this_cast<const Set>());
+    } else if (is_a<Interval>(*o)) {
+        return SymEngine::make_set_union({rcp_from_this_cast<const Set>(), o});
     } else {
-        return SymEngine::set_union({rcp_from_this_cast<const Set>(), o});
+        return (*o).set_union(rcp_from_this_cast<const Set>());
     }
 }
 
@@ -519,8 +521,7 @@ RCP<const Set> Integers::set_intersection(const RCP<const Set> &o) const
     } else if (is_a<FiniteSet>(*o) or is_a<Interval>(*o)) {
         return (*o).set_intersection(rcp_from_this_cast<const Set>());
     } else {
-        return SymEngine::set_intersection(
-            {rcp_from_this_cast<const Set>(), o});
+        return (*o).set_intersection(rcp_from_this_cast<const Set>());
     }
 }
 
@@ -607,8 +608,7 @@ RCP<const Set> Naturals::set_intersection(const RCP<const Set> &o) const
     } else if (is_a<FiniteSet>(*o) or is_a<Interval>(*o)) {
         return (*o).set_intersection(rcp_from_this_cast<const Set>());
     } else {
-        return SymEngine::set_intersection(
-            {rcp_from_this_cast<const Set>(), o});
+        return (*o).set_intersection(rcp_from_this_cast<const Set>());
     }
 }
 
@@ -693,8 +693,7 @@ RCP<const Set> Naturals0::set_intersection(const RCP<const Set> &o) const
     } else if (is_a<FiniteSet>(*o) or is_a<Interval>(*o)) {
         return (*o).set_intersection(rcp_from_this_cast<const Set>());
     } else {
-        return SymEngine::set_intersection(
-            {rcp_from_this_cast<const Set>(), o});
+        return (*o).set_intersection(rcp_from_this_cast<const Set>());
     }
 }
 
